@@ -70,11 +70,15 @@ Definition check_plot : rd verdict :=
   let find_obs := fun (l : list oseries) a e =>
     match find (fun o => (os_attack o =? a) && Bool.eqb (os_err o) e) l with Some o => os_pts o | None => [] end in
   let keys := flat_map (fun a => [(a, false); (a, true)]) attacks in
-  let vdiff := combine_verdicts
+  let vdiff0 := combine_verdicts
     [ if Bool.eqb model_err add_err then VOk else VDiff 30 [];
       if add_err then VOk else
       if forallb (fun '(a, e) => pts_eqb (sort_pts (model_series a e)) (sort_pts (find_obs full a e))) keys
       then VOk else VDiff 31 [] ] in
+  (* outside the property's domain (a timestamp going back in sequence order: x would be negative
+     and wraps in the unsigned conversion, which the model does not follow) a disagreement is not
+     a finding *)
+  let vdiff := if domain then vdiff0 else match vdiff0 with VOk => VOk | _ => VDontCare end in
   let vprop :=
     if negb domain then VOk else
     combine_verdicts
